@@ -176,10 +176,12 @@ def run(ctx):
                         for rep in ('frac', 'dec'):
                             if rep == 'dec' and any(a.denominator % p_ == 0 for p_ in (3, 7)):
                                 continue
+                            qx = qa * scale[qu] / scale[u]          # the quantum in the amount's unit (for the referee)
                             bcalccheck_cases.append(dict(op='Quantize', mode='ROUND_HALF_EVEN', rm=m,
-                                                         x=bq(u, a, rep), y=bq(qu, qa, 'dec')))
+                                                         x=bq(u, a, rep), y=bq(qu, qa, 'dec'),
+                                                         qx=[qx.numerator, qx.denominator]))
     from checks import bcalccheck
-    bcalccheck.run_cases(ctx, bcalccheck_cases, 'near-ties')
+    bcalccheck.run_cases(ctx, bcalccheck_cases, 'near-ties', sigfn=bcalccheck.dep_quantize_referee)
     # the quantize calls of the repository's own suite (witness-based judgement on big rationals)
     from checks import bcalccheck
     bcalccheck.repo_suite(ctx, {'Quantize'})
